@@ -16,7 +16,7 @@ from . import common, grammar_common as gc
 from .common import log
 
 LAYOUTS = {"quick": 3, "thorough": 6}
-SIM = {"quick": 60, "thorough": 600}
+SIM = {"quick": 200, "thorough": 3000}
 TRACE_SAMPLE = {"quick": 1500, "thorough": 12000}
 
 
